@@ -892,8 +892,11 @@ def oracle_files(ctx, n):
             for mlabel, content in struct_muts + grid:
                 ll = label.lower()
                 native = "RSAKey" if "rsa" in ll else "Ed25519Key" if "ed25519" in ll else "ECDSAKey" if "ec" in ll else "Ed25519Key"
-                for c in ([native] if mlabel.startswith("field") else CLS):
-                    for p in ([None] if pw is None else [pw, "wrong"]):
+                # the name grid runs under the file's own class with the right passphrase (bcrypt is slow); a seeded
+                # tenth of it also under the other classes and with a wrong passphrase (all of it in thorough)
+                wide = ctx.thorough or rng.random() < 0.1
+                for c in (CLS if wide and not mlabel.startswith("field") else [native]):
+                    for p in ([None] if pw is None else [pw, "wrong"] if wide else [pw]):
                         r = judge_load(ctx, c, label, mlabel, content, p, path)
                         hist[r] = hist.get(r, 0) + 1
                         ctx.count(("struct", c, content, p), kind="structured-%s:%s" % (mlabel.split(":")[0].split("-", 1)[-1][:14], r))
